@@ -1982,9 +1982,7 @@ def n_char_to_digit(ex, callee, a, env):
 
 @native(r'^(core::)?num::<impl (u8|u16|u32|u64|usize)>::(div_ceil|next_multiple_of)$', 'uN::div_ceil')
 def n_div_ceil(ex, callee, a, env):
-    x, y = a[0], a[1]
-    if not (isinstance(x, int) and isinstance(y, int)):
-        raise Unsupported('div_ceil on symbolic operands')
+    x, y = ex.concretize(a[0], 0, 64), ex.concretize(a[1], 0, 64)      # forks over the feasible values (small ranges only)
     if y == 0:
         raise Panic('attempt to divide by zero')
     q = -(-x // y)
